@@ -62,5 +62,5 @@ def unit_stft(prop, which):
 
 UNITS = {
     "C02": [unit_stft_frame("C02"), unit_stft("C02", "full")],
-    "C01": [unit_stft("C01", "finalize")],
+    "C01": [unit_stft("C01", "finalize"), unit_stft("C01", "chunk")],
 }
